@@ -3,8 +3,26 @@
 
 package tso
 
+import "google.golang.org/grpc"
+
 // VerifDifferentiate calls the unexported differentiateLogical of a timestamp oracle with the given suffix.
 func VerifDifferentiate(rawLogical int64, suffixBits int, suffix int) int64 {
 	t := &timestampOracle{suffix: suffix}
 	return t.differentiateLogical(rawLogical, suffixBits)
 }
+
+// VerifSetGRPCConn makes conn the connection this allocator manager uses for requests to the member at addr
+// (SyncMaxTS, GetDCLocationInfo), replacing a cached one, so that the harness can hold a request back with a
+// gRPC interceptor of its own.
+func (am *AllocatorManager) VerifSetGRPCConn(addr string, conn *grpc.ClientConn) {
+	am.localAllocatorConn.Lock()
+	defer am.localAllocatorConn.Unlock()
+	if old, ok := am.localAllocatorConn.clientConns[addr]; ok && old != conn {
+		old.Close()
+	}
+	am.localAllocatorConn.clientConns[addr] = conn
+}
+
+// VerifNextLeaderKey returns the etcd key that names the member which is to become the next Local TSO Allocator leader
+// of dcLocation (what `transfer allocator` writes).
+func (am *AllocatorManager) VerifNextLeaderKey(dcLocation string) string { return am.nextLeaderKey(dcLocation) }
